@@ -269,6 +269,7 @@ struct scenario {
 	std::vector<int> ours,peers;
 	std::vector<int> kind,peer_idx;   // 0 socket, 1 pipe read end, 2 pipe write end; index of the other end
 	std::vector<bool> raw_closed;     // the application closed the descriptor itself (::close + cancel_io_events)
+	std::vector<bool> nonowner;       // release()d: the device no longer owns the descriptor (closed raw at the end)
 	std::vector<bool> reopenable;     // closed while run() was executing and no reset() since: the number is still free
 	char iobuf[8];
 	std::vector<std::unique_ptr<io::stream_socket> > targets;   // accept targets
@@ -436,6 +437,27 @@ static void do_op(scenario *sc,op_t const &o)
 			else { int a=lst::good_accept(); if(a<0) sc->bad=true; else sc->clients.push_back(a); }
 		}
 		else if(lst::connected(s->native())) sc->bad=true;
+	}
+	else if(o.name=="xs" && o.a.size()==2) {
+		// async_read_some with a one byte buffer on an open socket (reader_some functor when nothing is there yet)
+		std::unique_ptr<io::basic_io_device> tmp;
+		io::stream_socket *s=dynamic_cast<io::stream_socket *>(sock_of(sc,o.a[0],tmp));
+		if(!s) { sc->bad=true; return; }
+		int id=sc->new_handler('i',0,atoi(o.a[1].c_str()));
+		booster::intrusive_ptr<io_call> p(new io_call(sc,id));
+		sc->bufs.push_back(std::unique_ptr<std::vector<char> >(new std::vector<char>(1)));
+		s->async_read_some(io::buffer(&sc->bufs.back()->front(),1),io::io_handler(p));
+	}
+	else if(o.name=="nc" && o.a.size()==1) {
+		// a device that does not own its descriptor (attach()-ed, or release()d) is closed: the pending waits must be
+		// cancelled, the descriptor stays open and the device keeps referring to it
+		size_t i=strtoul(o.a[0].c_str(),0,10);
+		if(i<sc->socks.size() && !sc->raw_closed[i] && sc->socks[i]->native()!=io::invalid_socket) {
+			sc->socks[i]->release();
+			sc->nonowner[i]=true;
+			error_code e;
+			sc->socks[i]->close(e);
+		}
 	}
 	else if(o.name=="xq" && o.a.size()==2) {
 		size_t i=strtoul(o.a[0].c_str(),0,10);
@@ -618,7 +640,7 @@ static std::string run_loop_case(std::vector<std::string> const &w,int backend)
 		// the peer lives at a high number: low numbers belong to the devices, so that re-use is deterministic
 		int hi=::fcntl(fds[1],F_DUPFD,200); ::close(fds[1]); fds[1]=hi;
 		sc.ours.push_back(fds[0]); sc.peers.push_back(fds[1]);
-		sc.kind.push_back(0); sc.peer_idx.push_back(int(k)); sc.raw_closed.push_back(false); sc.reopenable.push_back(false);
+		sc.kind.push_back(0); sc.peer_idx.push_back(int(k)); sc.raw_closed.push_back(false); sc.reopenable.push_back(false); sc.nonowner.push_back(false);
 		std::unique_lock<std::mutex> lk(ls::m);
 		ls::our_fds.insert(fds[0]);
 	}
@@ -632,7 +654,7 @@ static std::string run_loop_case(std::vector<std::string> const &w,int backend)
 			dev->assign(fds[e]);
 			sc.socks.push_back(std::move(dev));
 			sc.ours.push_back(fds[e]); sc.peers.push_back(-1);
-			sc.kind.push_back(e==0?1:2); sc.raw_closed.push_back(false); sc.reopenable.push_back(false);
+			sc.kind.push_back(e==0?1:2); sc.raw_closed.push_back(false); sc.reopenable.push_back(false); sc.nonowner.push_back(false);
 			sc.peer_idx.push_back(int(ns+2*k+(e==0?1:0)));
 			std::unique_lock<std::mutex> lk(ls::m);
 			ls::our_fds.insert(fds[e]);
@@ -642,7 +664,7 @@ static std::string run_loop_case(std::vector<std::string> const &w,int backend)
 		// connector devices: stream sockets that are opened by the script (xp / xg)
 		sc.socks.push_back(std::unique_ptr<io::basic_io_device>(new io::stream_socket(*sc.srv)));
 		sc.ours.push_back(-1); sc.peers.push_back(-1); sc.kind.push_back(3); sc.peer_idx.push_back(-1);
-		sc.raw_closed.push_back(false); sc.reopenable.push_back(false);
+		sc.raw_closed.push_back(false); sc.reopenable.push_back(false); sc.nonowner.push_back(false);
 	}
 	sc.aport.assign(sc.socks.size(),0);
 	for(size_t k=0;k<na;k++) {
@@ -655,7 +677,7 @@ static std::string run_loop_case(std::vector<std::string> const &w,int backend)
 		if(e || ::getsockname(a->native(),(struct sockaddr *)&sa,&sl)<0) return "bad-op acceptor";
 		sc.aport.push_back(ntohs(sa.sin_port));
 		sc.ours.push_back(a->native()); sc.peers.push_back(-1); sc.kind.push_back(5); sc.peer_idx.push_back(-1);
-		sc.raw_closed.push_back(false); sc.reopenable.push_back(false);
+		sc.raw_closed.push_back(false); sc.reopenable.push_back(false); sc.nonowner.push_back(false);
 		{ std::unique_lock<std::mutex> lk(ls::m); ls::our_fds.insert(a->native()); }
 		sc.socks.push_back(std::move(a));
 	}
@@ -737,6 +759,7 @@ static std::string run_loop_case(std::vector<std::string> const &w,int backend)
 		std::unique_lock<std::mutex> lk(ls::m);
 		ls::lockstep=false; ls::virtual_time=false;
 	}
+	for(size_t k=0;k<sc.socks.size();k++) if(sc.nonowner[k] && !sc.raw_closed[k] && sc.socks[k]->native()!=io::invalid_socket) ::close(sc.socks[k]->native());
 	sc.timers.clear();
 	sc.targets.clear();
 	for(size_t k=0;k<sc.clients.size();k++) ::close(sc.clients[k]);
